@@ -231,3 +231,17 @@ Section ReduceProofs.
     rewrite !op_assoc. f_equal. apply op_comm.
   Qed.
 End ReduceProofs.
+
+(* every row of an operand accepted by rows_ok starts at the alignment of the first row *)
+Theorem rows_ok_row_alignment w strides base idx : 0 < w -> rows_ok w strides = true ->
+  (base + dotZ idx (removelast strides)) mod w = base mod w /\ last strides 0 = 1.
+Proof.
+  intros Hw H. unfold rows_ok in H. apply andb_true_iff in H. destruct H as [Hl Ho].
+  split; [|apply Z.eqb_eq; exact Hl]. clear Hl. rewrite forallb_forall in Ho.
+  assert (dotZ idx (removelast strides) mod w = 0) as Hd.
+  { revert idx. induction (removelast strides) as [|s t IH]; intros idx; destruct idx as [|i idx']; cbn [dotZ]; try apply Z.mod_0_l; try lia.
+    rewrite Z.add_mod, IH by (try lia; intros x Hx; apply Ho; right; exact Hx).
+    assert (s mod w = 0) as Hs by (apply Z.eqb_eq, Ho; left; reflexivity).
+    rewrite Z.mul_mod, Hs, Z.mul_0_r by lia. reflexivity. }
+  rewrite Z.add_mod, Hd, Z.add_0_r, Z.mod_mod by lia. reflexivity.
+Qed.
